@@ -22,8 +22,11 @@ RULE = (
     "or a trace with inconsistent names that survives. Distinct by "
     "serialised case.")
 ASSUMPTIONS = [
-    "every trace has exactly one root span; parent ids are in the same trace "
-    "or in no trace; span ids unique (duplicates are C10's subject)",
+    "every trace has exactly one root span (first occurrences); parent ids "
+    "are in the same trace or in no trace; a third of the cases repeat span "
+    "ids with another parent later in the stream - the first occurrence is "
+    "what is stored (C10), so cleaning must behave as if the later copies "
+    "had never been sent",
     "an empty buffered window is answered by ValueError (documented)",
 ]
 EXHAUSTIVE = ()
@@ -44,11 +47,32 @@ def all_spans(case):
     order = case.get("order")
     if order and len(order) == len(out):
         out = [out[i] for i in order]
+    # repeated span ids: a later occurrence with another parent (possibly a
+    # parent that exists nowhere) placed somewhere after the first one
+    for d in case.get("dups", []):
+        ti, k = d["of"]
+        if ti >= len(case["traces"]) or k >= len(case["traces"][ti]["spans"]):
+            continue
+        sid = case["traces"][ti]["spans"][k][0]
+        pos = next(i for i, s in enumerate(out) if s["event_id"] == sid)
+        dup = dict(out[pos], parent_event_id=d["parent"],
+                   event_type=d.get("type", out[pos]["event_type"]))
+        at = pos + 1 + d["after"] % (len(out) - pos)
+        out.insert(at, dup)
+    return out
+
+
+def first_occurrences(spans):
+    seen, out = set(), []
+    for s in spans:
+        if s["event_id"] not in seen:
+            seen.add(s["event_id"])
+            out.append(s)
     return out
 
 
 def model(case):
-    spans = all_spans(case)
+    spans = first_occurrences(all_spans(case))
     lo = min(s["start_timestamp"] for s in spans) + case["buffer"] * MIN
     hi = max(s["end_timestamp"] for s in spans) - case["buffer"] * MIN
     if lo >= hi:
@@ -213,6 +237,10 @@ def replay(case):
 def classify(case):
     keep, removed = model(case)
     classes = [f"buffer={case['buffer']}"]
+    if case.get("dups"):
+        classes.append("repeated_span_ids")
+        if any(str(d["parent"]).startswith("ghost") for d in case["dups"]):
+            classes.append("later_duplicate_has_missing_parent")
     if keep is None:
         return False, classes + ["empty_window"]
     reasons = set(removed.values())
@@ -276,9 +304,22 @@ def case_strategy():
                               spans[0][4], spans[0][5]])
             traces.append({"id": f"job{ti}", "spans": spans})
         total = sum(len(t["spans"]) for t in traces)
-        return {"traces": traces, "buffer": buffer,
+        case = {"traces": traces, "buffer": buffer,
                 "batch": draw(st.sampled_from([1, 2, 3, 1000])),
                 "order": list(draw(st.permutations(list(range(total)))))}
+        if draw(st.integers(0, 2)) == 0:
+            dups = []
+            for _ in range(draw(st.integers(1, 3))):
+                ti = draw(st.integers(0, nt - 1))
+                k = draw(st.integers(0, len(traces[ti]["spans"]) - 1))
+                kind = draw(st.integers(0, 2))
+                parent = (f"ghostdup{ti}" if kind == 0 else
+                          None if kind == 1 else
+                          f"j{ti}s{draw(st.integers(0, max(0, k - 1)))}")
+                dups.append({"of": [ti, k], "parent": parent,
+                             "after": draw(st.integers(0, 30))})
+            case["dups"] = dups
+        return case
 
     return build()
 
@@ -290,6 +331,12 @@ def shrinker(case):
             c = dict(case, traces=tr[:i] + tr[i + 1:])
             c.pop("order", None)
             yield c
+    if case.get("dups"):
+        c = dict(case)
+        c.pop("dups")
+        yield c
+        for i in range(len(case["dups"])):
+            yield dict(case, dups=case["dups"][:i] + case["dups"][i + 1:])
     for i, t in enumerate(tr):
         ss = t["spans"]
         parents = {s[1] for s in ss}
